@@ -212,7 +212,7 @@ class Result(NamedItem):
 
             equivalent_alloc[prog] = uc * num_costed_coverage
 
-            if "/year" in self.model.progset.programs[prog].coverage.units:  # it's a one-off program, need to multiply by the time step to annualize spending
+            if self.model.progset.programs[prog].is_one_off:  # it's a one-off program, need to divide by the time step to annualize spending
                 equivalent_alloc[prog] /= self.dt
 
         return equivalent_alloc
